@@ -23,7 +23,8 @@ LEVEL = "exploration"
 
 FEATS = ["allof_parent", "oneof_disc", "enum_top", "inline_object", "arr_inline", "map_typed", "nullable", "prim_alias", "arr_alias", "params_everywhere", "param_types",
          "body_form", "secondary_2xx", "default_response", "multi_tag", "no_tag", "many_errors", "fastapi_ids", "all_methods", "inline_response_object",
-         "component_params_responses", "keyword_props", "defaults", "enum_inline", "union_prop", "pathlevel_only", "shared_param_inline", "nullable", "body_optional"]
+         "component_params_responses", "keyword_props", "defaults", "enum_inline", "union_prop", "pathlevel_only", "shared_param_inline", "nullable", "body_optional",
+         "disc_numeric_keys", "numeric_prop_keys", "case_variant_schemas"]
 
 
 def perm(items: list, how: str) -> list:
@@ -63,10 +64,15 @@ def render(spec: dict, variant: dict) -> tuple[str, str]:
     if r == "jsonSorted":
         return json.dumps(d, sort_keys=True), "json"
     if r == "yamlBareKeys":
-        for item in d["paths"].values():
-            for op in item.values():
-                if isinstance(op, dict) and "responses" in op:
-                    op["responses"] = {(int(k) if str(k).isdigit() else k): v for k, v in op["responses"].items()}
+        # EVERY mapping key that looks like a number is written bare (status codes, discriminator values, property names, ...)
+        def bare(node):
+            if isinstance(node, dict):
+                return {(int(k) if isinstance(k, str) and k.isdigit() and str(int(k)) == k else k): bare(v) for k, v in node.items()}
+            if isinstance(node, list):
+                return [bare(x) for x in node]
+            return node
+
+        d = bare(d)
     txt = yaml.safe_dump(d, sort_keys=False, default_flow_style=(r == "yamlFlow"), width=100000)
     if r == "yamlCapBool":
         # YAML 1.1 booleans may be written True / False / TRUE / FALSE: same meaning
@@ -127,7 +133,7 @@ def run(chk: Check) -> None:
     chk.require(len(variants) > 5, "Render emitted too few variants")
     if not thorough:
         variants = [v for v in variants if v["pure"] or v["variant"]["rendering"] in ("json", "yamlBlock") and "rot" not in v["variant"].values()]
-    must = ["pathlevel_only", "shared_param_inline", "nullable", "params_everywhere"]  # path-level parameters, shared component parameters, booleans
+    must = ["pathlevel_only", "shared_param_inline", "nullable", "params_everywhere", "disc_numeric_keys", "numeric_prop_keys", "case_variant_schemas"]  # path-level parameters, shared component parameters, booleans
     docs: list[tuple[str, dict]] = [(f"feat:{f}", features.build([f])) for f in (FEATS if thorough else sorted(set(FEATS[::2]) | set(must)))]
     docs.append(("feat:mix", features.build(FEATS[:8])))
     kinds = ["ref", "arr", "inline", "map", "oneOf", "allOf"]
@@ -215,6 +221,9 @@ def run(chk: Check) -> None:
         if v["clause"] != "ok":
             loc = dict(v["locus"])
             loc["family"] = dname.split(":")[0]
+            if var["variant"]["rendering"] == "yamlBareKeys":
+                # which kind of key was written bare in this document (observation of the DOCUMENT, plain inspection)
+                loc["bare_key_kinds"] = "+".join(sorted(k for k, has in (("property", dname == "feat:numeric_prop_keys"), ("discriminator_value", dname == "feat:disc_numeric_keys")) if has)) or "status"
             detail = ""
             if isinstance(a, dict) and isinstance(b, dict):
                 dm = sorted(set(a["models"]) ^ set(b["models"]))[:4]
